@@ -559,7 +559,7 @@ func (c *Compiler) applyUsesToNode(mod, nod, use parse.Node, parentStatus schema
 		}
 	} else {
 		group, ok = gmod.LookupGrouping(gname.Local)
-		if !ok && gmod.Type() == parse.NodeSubmodule && c.owningModule(gmod) == mod {
+		if !ok && gmod.Type() == parse.NodeSubmodule && c.owningModule(gmod) == c.owningModule(mod) {
 			// A uses written in a submodule of the module being
 			// expanded: the groupings in scope where it stands
 			group, ok = nod.LookupGrouping(gname.Local)
@@ -637,7 +637,9 @@ func (c *Compiler) applyUsesToNode(mod, nod, use parse.Node, parentStatus schema
 		// forward referenced grouping contains a second forward reference
 		// that is not at top level of grouping (that scenario is dealt with
 		// in expandGroupings())
-		if err := c.expandGroupings(gmod, newKid, schema.Current); err != nil {
+		// (a uses in the body is a reference made by the grouping: it is
+		// checked against the grouping's status, as a uses at its top is)
+		if err := c.expandGroupings(gmod, newKid, groupStatus); err != nil {
 			c.error(newKid, err)
 		}
 		refinedNodes = append(refinedNodes, newKid)
